@@ -27,7 +27,10 @@ EXPLANATION = ("Deductive (counted): (1) index sets - the rows handed out for a 
                "- rank, so H_j Ms_k = (H_j V0) V1 = 0 for j != k (associativity as a ring identity, H_j V0 = 0 by the callee contract); "
                "blocks are laid out user by user; (3) no-water-filling power: every user's block has squared Frobenius norm exactly iPu "
                "(exact identity with sqrt(X)^2 = X); newH = H Ms; (4) projection-based receive filter W = pinv(Pbar H) Pbar satisfies "
-               "W H = I.  The end-to-end claims (numerical nulling, normalised water-filling, whitening, stream reduction metrics, "
+               "W H = I; (5) normalised water-filling (block_diagonalize) with doWF (C12) and the Frobenius norm as callees under contract, on "
+               "an object whose public iPu / noise_var were changed after construction: doWF receives Sigma^2, K*iPu and the noise variance "
+               "of the CURRENT attributes, every transmitter's power is <= iPu and the strongest == iPu (ring identity power*r_max^2 == "
+               "||block||^2*iPu per path of the max search + a three-variable arithmetic lemma).  The end-to-end claims (numerical nulling, normalised water-filling, whitening, stream reduction metrics, "
                "external interference removal) rest on LAPACK SVD/rank decisions: bounded run-time contract checks - hence 'other'.")
 ASSUMPTIONS = [
     "callee contracts: least_right_singular_vectors (from the svd contract: A V0 = 0 for n = cols - rank A), matrix_rank = rows for "
